@@ -66,7 +66,7 @@ class AvroWriter(AbstractWriter):
             self.desc = r._desc
             self.schema = descriptor_to_schema(self.desc)
             self.parsed_schema = fastavro.parse_schema(self.schema)
-            self.writer = fastavro.write.Writer(self.fp, self.parsed_schema, codec=self.codec)
+            self.writer = fastavro.write.Writer(self.fp, self.parsed_schema, codec=self.codec, validator=True)
 
         if self.desc != r._desc:
             raise Exception("Mixed record types")
